@@ -41,7 +41,11 @@ Self(name)          == [k |-> "self", name |-> name]
 (* Fixture: a named struct with user-declared methods.  Its Equal / Compare *)
 (* / Hash consider the first field K only and ignore V -- deliberately     *)
 (* non-structural, so honouring vs ignoring the method is observable.      *)
-MethKinds == {"vv", "pv", "vp", "pp", "vi", "pi"}
+MethKinds == {"vv", "pv", "vp", "pp", "vi", "pi", "pd"}
+(* "pd": pointer receiver, pointer argument, and Compare returns the DIFFERENCE of the keys (negative /    *)
+(* zero / positive, not clamped to -1/+1) -- the usual convention of hand-written Compare methods.  Its    *)
+(* fixture KDStruct has the single field K int8 (so the method's Equal is structural) and is comparable:   *)
+(* it also serves as a map key.                                                                            *)
 HasMeth(T) == T.k = "struct" /\ "meth" \in DOMAIN T
 
 TInt    == Basic("int")
@@ -59,6 +63,8 @@ Bind(env, T) == [n \in DOMAIN env \cup {T.name} |-> IF n = T.name THEN T ELSE en
 (* Map key kinds of the universe (value keys).                             *)
 MStruct(mk) == [k |-> "struct", name |-> "M" \o mk, pkg |-> "local",
                  fields |-> <<Field("K", TInt), Field("V", TInt)>>, meth |-> mk]
+
+KDStruct == [k |-> "struct", name |-> "KD", pkg |-> "local", fields |-> <<Field("K", Basic("int8"))>>, meth |-> "pd"]
 
 KeyStruct == Struct("K", "local", <<Field("A", TInt), Field("B", TString)>>)
 NamedString == Named("NS", TString)
@@ -103,6 +109,7 @@ Nodes(T) ==
     [] T.k = "struct" -> UNION {Nodes(T.fields[i].t) : i \in DOMAIN T.fields}
     [] OTHER -> {}
 
+Unclamped(T) == \E X \in Nodes(T) : HasMeth(X) /\ X.meth = "pd"
 HasSlice(T) == \E X \in Nodes(T) : X.k = "slice"
 HasMap(T)   == \E X \in Nodes(T) : X.k = "map"
 FloatKinds  == {"float32", "float64", "complex128"}
@@ -114,7 +121,7 @@ HasSharable(T) == \E X \in Nodes(T) : X.k \in {"slice", "array", "map"} /\ Alloc
 -----------------------------------------------------------------------------
 (* Well-formedness: what the harness may feed in (random depth-3 terms are *)
 (* produced by the Go side and are admitted only if TLC accepts them).     *)
-IsKeyType(T) == T \in KeyTypeSet
+IsKeyType(T) == T \in KeyTypeSet \cup {KDStruct, Struct("K2", "local", <<Field("A", KDStruct), Field("B", TString)>>)}
 
 RECURSIVE WF(_, _, _, _)
 \* env: set of struct names in scope; under: TRUE iff directly below ptr/slice/map value
@@ -128,11 +135,11 @@ WF(T, names, under, inext) ==
     [] T.k = "slice"  -> DOMAIN T = {"k", "e"} /\ WF(T.e, names, TRUE, inext)
     [] T.k = "array"  -> DOMAIN T = {"k", "len", "e"} /\ T.len = 2 /\ WF(T.e, names, FALSE, inext)
     [] T.k = "map"    -> DOMAIN T = {"k", "key", "e"} /\ IsKeyType(T.key) /\ WF(T.e, names, TRUE, inext)
-                         /\ (inext => T.key # KeyStruct)
+                         /\ (inext => T.key \in KeyTypeSet \ {KeyStruct})
     [] T.k = "struct" ->
          /\ \/ DOMAIN T = {"k", "name", "pkg", "fields"}
             \/ /\ DOMAIN T = {"k", "name", "pkg", "fields", "meth"} /\ T.meth \in MethKinds
-               /\ T.fields = <<Field("K", TInt), Field("V", TInt)>>
+               /\ T.fields = (IF T.meth = "pd" THEN <<Field("K", Basic("int8"))>> ELSE <<Field("K", TInt), Field("V", TInt)>>)
          /\ T.pkg \in {"local", "ext"} /\ (inext => T.pkg = "ext")
          /\ T.name \notin names /\ Len(T.name) > 0 /\ SubSeq(T.name, 1, 1) \in UpperCase
          /\ Len(T.fields) \in 1..4
@@ -242,12 +249,18 @@ TypesUpTo(d) ==
 
 (* Types with a method-bearing component: every one-level context over M   *)
 (* and *M for every method kind, plus a second level of unary contexts.     *)
-MethComponents == {MStruct(mk) : mk \in MethKinds} \cup {Ptr(MStruct(mk)) : mk \in MethKinds}
+MStructOf(mk) == IF mk = "pd" THEN KDStruct ELSE MStruct(mk)
+MethComponents == {MStructOf(mk) : mk \in MethKinds} \cup {Ptr(MStructOf(mk)) : mk \in MethKinds}
+\* maps KEYED by the unclamped-Compare fixture (sorted-key walks of Compare and Hash go through the user's method)
+KDKeyed ==
+  LET k2 == Struct("K2", "local", <<Field("A", KDStruct), Field("B", TString)>>)
+      ms == {Map(KDStruct, TInt), Map(KDStruct, TString), Map(KDStruct, Slice(TInt)), Map(k2, TInt)} IN
+  ms \cup {Ptr(m) : m \in ms} \cup {Slice(m) : m \in ms} \cup {Struct("S2", "local", <<Field("A", m)>>) : m \in ms}
 NoEmbMeth(T) == ~\E X \in Nodes(T) : X.k = "struct" /\ \E i \in DOMAIN X.fields : X.fields[i].emb /\ HasMeth(X.fields[i].t)
 MethLayer1 == {T \in ConsOver(MethComponents) : NoEmbMeth(T) /\ ~PtrChainToMeth(T)}
 MethTypes(d) ==
-  IF d <= 1 THEN MethLayer1
-  ELSE MethLayer1 \cup {Ptr(t) : t \in MethLayer1} \cup {Slice(t) : t \in MethLayer1}
+  IF d <= 1 THEN MethLayer1 \cup KDKeyed
+  ELSE MethLayer1 \cup KDKeyed \cup {Ptr(t) : t \in MethLayer1} \cup {Slice(t) : t \in MethLayer1}
        \cup {Struct(SNameOver(t), "local", <<Field("A", TInt), Field("b", t)>>) : t \in MethLayer1}
 
 (* short, name-free rendering of the type AT a position (failure classes)  *)
